@@ -82,6 +82,9 @@ LEAVES = [
     #      after dropping it.  The harness numbers known answers accordingly (reply_common.parse_query) and the driver checks the flag.
     ("ReplyNet", "resp_known_unscoped", QH, "QueryHandler.async_response", ("if_assigning", "own_known_answers", 0),
      [P("msg.scope_id is None", "scope_none", "bool")], "bool", {"absent": False}),
+    # ---- query_handler.py: does the QU rule's cache look-up go through a scope-blind helper (candidate repair of D29)?  The harness hands
+    #      the model the view of "seen" the tree's own look-up has (reply_common, asm["seen"]); the driver checks the flag.
+    ("ReplyNet", "qu_lookup_ignores_scope", QH, "_QueryResponse._has_mcast_within_one_quarter_ttl", ("has_call", "_get_unique_ignoring_scope"), [], "bool", {}),
     # ---- the record constructors the responder answers with: type and class arguments
     ("ReplyNet", "rec_ptr_type", INFO, "ServiceInfo._dns_pointer", ("arg", "DNSPointer", 1, 0), [], "num", {"nat": True}),
     ("ReplyNet", "rec_ptr_class", INFO, "ServiceInfo._dns_pointer", ("arg", "DNSPointer", 2, 0), [], "num", {"nat": True}),
